@@ -1,5 +1,6 @@
 import BitbybitModel.Lemmas.ParseOk
 import BitbybitModel.Lemmas.Render
+import BitbybitModel.Lemmas.RenderOrder
 import BitbybitModel.Lemmas.Literal
 /-!
 # C09 — a bitfield declaration compiles iff every field fits its type and the base
@@ -352,20 +353,46 @@ theorem stride_tokens_from_text (s : Nat) (hs : s < 2 ^ 64) :
 theorem huge_literal_not_a_number (n : Nat) (h : 2 ^ 64 ≤ n) : Tok.ofLiteralText (Nat.repr n) = .lit none :=
   Tok.ofLiteralText_repr_large n h
 
-/-- **C09 at the token level.** A field declared with a supported type and a well-formed `bit` / `bits` attribute is
-    accepted by the macro exactly when no range is reversed, a stride is only given for an array, and the rule set
-    holds for the attribute's content. -/
-theorem field_accept_iff (resolve : List String → Nat) (N : Nat) (hN : N ≤ 128) (f : FieldSpec) (ti : TyInfo)
-    (hwf : f.attr.WF) (hti : typeInfo resolve f.ty = .ok ti) (hcnt : ∀ c, f.count = some c → c < 2 ^ 64) :
-    (∃ fd, parseField resolve N f.render = .ok fd) ↔
+/-- the attribute with its arguments written as the token list `T` -/
+def _root_.Bb.AttrSpec.renderWith (a : AttrSpec) (T : List Tok) : Attr := { a.render with toks := T }
+
+def FieldSpec.renderWith (f : FieldSpec) (T : List Tok) : FieldSyn :=
+  { name := f.name, ty := f.ty, count := f.count, attrs := List.replicate f.docs docAttr ++ [f.attr.renderWith T] }
+
+theorem parseAttrs_renderWith (hasCount : Bool) (a : AttrSpec) (T : List Tok) (ps : PState) (docs : Nat) :
+    parseAttrs hasCount [a.renderWith T] ps docs =
+      (match parseTopTokens a.isRange hasCount T 0 .reset ps with
+       | .ok ps' => .ok (ps', docs)
+       | .error e => .error e) := by
+  have hname : ((a.renderWith T).name = "bits" ∨ (a.renderWith T).name = "bit") := by
+    unfold AttrSpec.renderWith AttrSpec.render; cases a.isRange <;> simp
+  have hbits : decide ((a.renderWith T).name = "bits") = a.isRange := render_name a
+  simp only [parseAttrs, hname, if_true, hbits]
+  have hl : (a.renderWith T).isList = true := rfl
+  have hdl : (a.renderWith T).delim = '(' := rfl
+  have ht : (a.renderWith T).toks = T := rfl
+  simp only [hl, Bool.not_true, Bool.false_eq_true, if_false, bind, Except.bind, hdl, ne_eq, not_true_eq_false, ht]
+  cases parseTopTokens a.isRange hasCount T 0 AP.reset ps <;> rfl
+
+/-- the acceptance theorem for any way `T` of writing the arguments that the `ArgumentParser` reads as the attribute's
+    content (or rejects for a reversed range / a stride on a scalar) -/
+theorem field_accept_iff_toks (resolve : List String → Nat) (N : Nat) (hN : N ≤ 128) (f : FieldSpec) (ti : TyInfo) (T : List Tok)
+    (hti : typeInfo resolve f.ty = .ok ti) (hcnt : ∀ c, f.count = some c → c < 2 ^ 64)
+    (hok : (∀ r ∈ f.attr.ranges, r.short = false → r.lo ≤ r.hi) → (f.attr.stride.isSome = true → f.count.isSome = true) →
+      ∃ ps, parseTopTokens f.attr.isRange f.count.isSome T 0 .reset {} = .ok ps ∧ f.attr.Content ps)
+    (hrevT : (∃ r ∈ f.attr.ranges, r.short = false ∧ r.lo > r.hi) →
+      ∃ e, parseTopTokens f.attr.isRange f.count.isSome T 0 .reset {} = .error e)
+    (hstrT : (∀ r ∈ f.attr.ranges, r.short = false → r.lo ≤ r.hi) → ∀ s, f.attr.stride = some s → f.count.isSome = false →
+      ∃ e, parseTopTokens f.attr.isRange false T 0 .reset {} = .error e) :
+    (∃ fd, parseField resolve N (f.renderWith T) = .ok fd) ↔
       ((∀ r ∈ f.attr.ranges, r.short = false → r.lo ≤ r.hi) ∧ (f.attr.stride.isSome = true → f.count.isSome = true) ∧
        RuleValid N ti f.count (contentOf f.attr)) := by
-  have hct : countTooLarge f.render.count = false := by
+  have hct : countTooLarge (f.renderWith T).count = false := by
     cases hc : f.count with
-    | none => simp [FieldSpec.render, countTooLarge, hc]
-    | some c => have := hcnt c hc; simp [FieldSpec.render, countTooLarge, hc]; omega
-  have hparse : parseField resolve N f.render =
-      (match parseAttrs f.count.isSome (List.replicate f.docs docAttr ++ [f.attr.render]) {} 0 with
+    | none => simp [FieldSpec.renderWith, countTooLarge, hc]
+    | some c => have := hcnt c hc; simp [FieldSpec.renderWith, countTooLarge, hc]; omega
+  have hparse : parseField resolve N (f.renderWith T) =
+      (match parseAttrs f.count.isSome (List.replicate f.docs docAttr ++ [f.attr.renderWith T]) {} 0 with
        | .error r => .error r
        | .ok (ps, docs) => match firstError N ti f.count ps with
          | some r => .error r
@@ -373,13 +400,13 @@ theorem field_accept_iff (resolve : List String → Nat) (N : Nat) (hN : N ≤ 1
     unfold parseField
     rw [hct]
     simp only [Bool.false_eq_true, if_false]
-    have : f.render.ty = f.ty := rfl
+    have : (f.renderWith T).ty = f.ty := rfl
     rw [this, hti]
     rfl
-  rw [hparse, parseAttrs_docs, parseAttrs_render]
+  rw [hparse, parseAttrs_docs, parseAttrs_renderWith]
   by_cases hord : ∀ r ∈ f.attr.ranges, r.short = false → r.lo ≤ r.hi
   · by_cases hs : f.attr.stride.isSome = true → f.count.isSome = true
-    · obtain ⟨ps, hp, hc⟩ := parse_render_ok f.count.isSome f.attr hwf hord hs
+    · obtain ⟨ps, hp, hc⟩ := hok hord hs
       rw [hp]
       simp only
       have hfe := firstError_congr N ti f.count ps (contentOf f.attr) hc.1 hc.2.2.2
@@ -403,7 +430,7 @@ theorem field_accept_iff (resolve : List String → Nat) (N : Nat) (hN : N ≤ 1
         | none => exact absurd (fun h' => by rw [h] at h'; cases h') hs
         | some s => exact ⟨s, rfl⟩
       obtain ⟨s, hss⟩ := hsome
-      obtain ⟨e, he⟩ := parse_render_stride_scalar f.attr hwf hord s hss
+      obtain ⟨e, he⟩ := hstrT hord s hss hcn
       rw [hcn, he]
       constructor
       · rintro ⟨fd, h⟩; cases h
@@ -417,11 +444,39 @@ theorem field_accept_iff (resolve : List String → Nat) (N : Nat) (hN : N ≤ 1
       by_cases hle : r.lo ≤ r.hi
       · exact hle
       · exact absurd ⟨r, hr, hsh, by omega⟩ hno
-    obtain ⟨e, he⟩ := parse_render_reversed f.count.isSome f.attr hwf hrev
+    obtain ⟨e, he⟩ := hrevT hrev
     rw [he]
     constructor
     · rintro ⟨fd, h⟩; cases h
     · rintro ⟨h, _⟩; exact absurd h hord
+
+theorem renderWith_self (f : FieldSpec) : f.renderWith f.attr.render.toks = f.render := rfl
+
+/-- **C09 at the token level.** A field declared with a supported type and a well-formed `bit` / `bits` attribute is
+    accepted by the macro exactly when no range is reversed, a stride is only given for an array, and the rule set
+    holds for the attribute's content. -/
+theorem field_accept_iff (resolve : List String → Nat) (N : Nat) (hN : N ≤ 128) (f : FieldSpec) (ti : TyInfo)
+    (hwf : f.attr.WF) (hti : typeInfo resolve f.ty = .ok ti) (hcnt : ∀ c, f.count = some c → c < 2 ^ 64) :
+    (∃ fd, parseField resolve N f.render = .ok fd) ↔
+      ((∀ r ∈ f.attr.ranges, r.short = false → r.lo ≤ r.hi) ∧ (f.attr.stride.isSome = true → f.count.isSome = true) ∧
+       RuleValid N ti f.count (contentOf f.attr)) := by
+  rw [← renderWith_self]
+  exact field_accept_iff_toks resolve N hN f ti _ hti hcnt
+    (fun hord hs => parse_render_ok f.count.isSome f.attr hwf hord hs)
+    (fun hrev => parse_render_reversed f.count.isSome f.attr hwf hrev)
+    (fun hord s hss _ => parse_render_stride_scalar f.attr hwf hord s hss)
+
+/-- **… whatever the order of the arguments.** The range(s), the access specifier and the stride may be written in any
+    of the six orders (`bits(stride = 4, rw, 0..=3)` …): the macro accepts exactly the same fields. -/
+theorem field_accept_iff_any_order (resolve : List String → Nat) (N : Nat) (hN : N ≤ 128) (f : FieldSpec) (ti : TyInfo)
+    (hwf : f.attr.WF) (hti : typeInfo resolve f.ty = .ok ti) (hcnt : ∀ c, f.count = some c → c < 2 ^ 64) (o : ArgOrder) :
+    (∃ fd, parseField resolve N (f.renderWith (f.attr.toksIn o)) = .ok fd) ↔
+      ((∀ r ∈ f.attr.ranges, r.short = false → r.lo ≤ r.hi) ∧ (f.attr.stride.isSome = true → f.count.isSome = true) ∧
+       RuleValid N ti f.count (contentOf f.attr)) :=
+  field_accept_iff_toks resolve N hN f ti _ hti hcnt
+    (fun hord hs => parse_any_order f.count.isSome f.attr hwf hord hs o)
+    (fun hrev => parse_any_order_reversed f.count.isSome f.attr hwf hrev o)
+    (fun hord s hss _ => parse_any_order_stride_scalar f.attr hwf hord s hss o)
 
 /-! non-vacuity: the content of `#[bits(1..=4, rw, stride = 5)] arr: [u4; 3]` over `u24` is valid, one more element is not -/
 def arrPs : PState := { ranges := [⟨1, 4⟩], rangesToken := some 0, provideGetter := true, provideSetter := true, indexedStride := some 5 }
